@@ -37,12 +37,22 @@ class PathLimit(AnalysisBroken):
 
 
 # ----------------------------------------------------------------- linear forms
+_ATOM_ORDER = {}
+
+
+def atom_order(a):
+    i = _ATOM_ORDER.get(a)
+    if i is None:
+        i = _ATOM_ORDER[a] = len(_ATOM_ORDER)
+    return i
+
+
 class Lin:
     __slots__ = ("terms", "k", "_h")
 
     def __init__(self, terms=None, k=0):
         if terms:
-            self.terms = tuple(sorted(((a, c) for a, c in terms.items() if c != 0), key=lambda x: repr(x[0])))
+            self.terms = tuple(sorted(((a, c) for a, c in terms.items() if c != 0), key=lambda x: atom_order(x[0])))
         else:
             self.terms = ()
         self.k = k
@@ -99,7 +109,7 @@ class Lin:
                 else:
                     fa = a[1] if isinstance(a, tuple) and a[0] == "mul" else (a,)
                     fb = b[1] if isinstance(b, tuple) and b[0] == "mul" else (b,)
-                    m = ("mul", tuple(sorted(fa + fb, key=repr)))
+                    m = ("mul", tuple(sorted(fa + fb, key=atom_order)))
                 d[m] = d.get(m, 0) + c * e
         return Lin(d, self.k * o.k)
 
@@ -136,6 +146,8 @@ def sym(name):
 
 def show_atom(a):
     if isinstance(a, tuple):
+        if not a or not isinstance(a[0], str):
+            return "(" + ",".join(show(x) if isinstance(x, Lin) else show_atom(x) for x in a) + ")"
         if a[0] == "sym":
             return a[1]
         if a[0] == "mul":
@@ -240,7 +252,9 @@ class Obj:
         return self.fields[f]
 
     def clone(self, name=None):
-        o = Obj(self.cls, name or self.name, self.symbolic)
+        # a symbolic object keeps its identity: lazily created field symbols
+        # must not depend on which copy is asked first
+        o = Obj(self.cls, self.name if self.symbolic else (name or self.name), self.symbolic)
         for k, v in self.fields.items():
             o.fields[k] = v.clone() if isinstance(v, Obj) else v
         return o
@@ -324,6 +338,8 @@ def pointee(t):
 
 
 class Path:
+    _facts = None
+
     def __init__(self):
         self.events = []
         self.pc = []
@@ -433,8 +449,11 @@ class Exec:
         raise Unsupported("expected lvalue at line %s (%s)" % (n.get("l"), n.get("k")))
 
     def eval(self, n, fr):
+        self.eng.steps += 1
+        if self.eng.steps > self.eng.step_limit:
+            raise PathLimit("step budget exhausted")
         k = n["k"]
-        if "cv" in n and k not in ("CXXConstructExpr", "InitListExpr"):
+        if "cv" in n and k != "CXXConstructExpr":
             return Lin.const(int(n["cv"]))
         m = getattr(self, "e_" + k, None)
         if m is None:
@@ -448,6 +467,8 @@ class Exec:
         return Lin.atom(("strlit", n.get("str")))
 
     def e_CXXThisExpr(self, n, fr):
+        if fr.this is None:
+            raise Unsupported("`this` without object at line %s" % n.get("l"))
         return Ptr(fr.this)
 
     def e_DeclRefExpr(self, n, fr):
@@ -977,6 +998,38 @@ class Exec:
             self.exec(n.get("then"), fr)
         else:
             self.exec(n.get("else"), fr)
+
+    def s_SwitchStmt(self, n, fr):
+        v = self.scalar(self.rvalue(n["cond"], fr))
+        body = n.get("body") or {}
+        stmts = body.get("c") or []
+        start = None
+        default_i = None
+        for i, st in enumerate(stmts):
+            cur = st
+            while cur is not None and cur.get("k") in ("CaseStmt", "DefaultStmt"):
+                if cur["k"] == "DefaultStmt":
+                    default_i = i
+                else:
+                    cv = self.rvalue(cur["lhs"], fr)
+                    if self.decide(cmp_term("==", v, cv), "case line %s" % cur.get("l")):
+                        start = i
+                        break
+                cur = cur.get("sub")
+            if start is not None:
+                break
+        if start is None:
+            start = default_i
+        if start is None:
+            return
+        try:
+            for st in stmts[start:]:
+                cur = st
+                while cur is not None and cur.get("k") in ("CaseStmt", "DefaultStmt"):
+                    cur = cur.get("sub")
+                self.exec(cur, fr)
+        except BreakLoop:
+            pass
 
     def s_BreakStmt(self, n, fr):
         raise BreakLoop()
